@@ -167,6 +167,13 @@ def long_history_programs(thorough):
     from .. import families
     progs = families.mixed("quick", 360 if thorough else 90, salt=14)
     progs += [p for p in POOL[:14]]
+    # statements whose value is unused and that have SEVERAL pending hybrids (their order must not depend on the temporary counter,
+    # which grows over a history: h_tmp9 -> h_tmp10 -> h_tmp100)
+    for a_, b_ in [("n++", "m++"), ("clz32(n)", "clo32(m)"), ("n--", "revbit32(m)"), ("fbrev(n)", "m--"), ("clz32(n++)", "clo32(m--)"),
+                   ("({ n = n + 1; n; })", "m++"), ("n++", "({ m = m * 2; m; })")]:
+        progs.append(f"{{ int32_t n = RsV; int32_t m = RtV; {a_} + {b_}; RdV = n + m; }}")
+        progs.append(f"{{ int32_t n = RsV; int32_t m = RtV; RxV = {a_} - {b_}; {b_}; RdV = n ^ m; }}")
+        progs.append(f"{{ int32_t n = RsV; int32_t m = RtV; for (i = 0; i < 2; i++) {{ {a_} + {b_} + {a_}; }} RdV = n + m; }}")
     fails = POOL[14:]
     rng = random.Random(framework.seed() + 1414)
     for _ in range(len(progs) // 6):
